@@ -173,7 +173,7 @@ def prefix_agree(ctx, res):
     res.floor(6)
 
 
-@rule("C11.roles", ["C11"],
+@rule("C11.roles", ["C11", "C19"],
       "setattr_delegate: DelegatesTo stores into the delegate (validated "
       "there), PrototypedFrom validates with the prototype's trait and "
       "stores locally, then detaches the forwarding listener")
@@ -240,6 +240,28 @@ def roles(ctx, res):
                         if a[0].endswith(">= 0)") and a[1] is True]
             rm = [x for x in p.events if x[0] == "PyObject_CallMethod"
                   and any("_remove_trait_delegate_listener" in y for y in x[1])]
+            # the listener is updated only after - and only if - the store
+            # succeeded (a rejected value must leave the registration alone)
+            if rm and "local-listener-order" not in seen:
+                early = p.events.index(rm[0]) < p.events.index(e)
+                failed = [a for a in p.atoms
+                          if a[0].endswith(">= 0)") and a[1] is False]
+                unguarded = not ok_atoms
+                if early or failed or unguarded:
+                    seen.add("local-listener-order")
+                    res.violation(
+                        "setattr_delegate:local-listener-order",
+                        f"{CREL}:{rm[0][3]}",
+                        "_remove_trait_delegate_listener runs "
+                        + ("before the terminal setattr" if early else
+                           "without the terminal setattr having been seen "
+                           "to succeed" if unguarded and not failed else
+                           "although the terminal setattr failed")
+                        + ": when the prototype's validator rejects the "
+                        "value, the forwarding listener is already gone and "
+                        "later changes of the prototype are no longer "
+                        "announced on this object",
+                        [f"{CREL}:{l}" for l in dict.fromkeys(p.lines) if l])
             if ok_atoms and "local-listener" not in seen:
                 good = rm and rm[0][1][0] == objp and rm[0][1][3] == namep \
                     and rm[0][1][4] == f"(0 != {valuep})"
